@@ -3,7 +3,7 @@ from . import sched as S, resources as R, elements, keydomains
 
 def check(ctx):
     S.run_tables(ctx, 'C12', [k[:2] for k in S.SPECS])
-    R.run_tables(ctx, 'C12', [('Store', '_do_put'), ('Store', '_do_get'), ('PriorityStore', '_do_put'),
+    R.run_tables(ctx, 'C12', [('Store', '_do_put@unbounded'), ('Store', '_do_get'), ('PriorityStore', '_do_put@unbounded'),
                               ('PriorityStore', '_do_get'), ('PriorityItem', '__lt__')])
     elements.send_packet_awaited(ctx, 'C12')
     elements.server_yield_whitelist(ctx, 'C12')
